@@ -1,0 +1,58 @@
+//go:build verif
+
+package ha
+
+import (
+	"errors"
+	"time"
+)
+
+// Verification hooks (build tag "verif"): injection points and accessors used by the /verif
+// correspondence harness. Not compiled into normal builds; no behaviour of their own.
+
+// VerifAttach registers the controller's health-event handler with its monitor exactly as
+// Start does, without starting the one-second control loop (the harness calls
+// VerifEvaluateState at the modelled instants instead).
+func (c *FailoverController) VerifAttach() {
+	c.healthMonitor.OnHealthChange(c.handleHealthEvent)
+}
+
+// VerifEvaluateState runs one iteration of the control loop body.
+func (c *FailoverController) VerifEvaluateState() { c.evaluateState() }
+
+// VerifTimers returns the controller's current timer objects (nil when never armed).
+func (c *FailoverController) VerifTimers() (failover, failback *time.Timer) {
+	c.mu.RLock()
+	defer c.mu.RUnlock()
+	return c.failoverTimer, c.failbackTimer
+}
+
+// VerifDeadlines returns the recorded failover / failback due times.
+func (c *FailoverController) VerifDeadlines() (failover, failback time.Time) {
+	c.mu.RLock()
+	defer c.mu.RUnlock()
+	return c.failoverTime, c.failbackTime
+}
+
+// VerifFailoverTimerFunc runs what the failover timer's function runs. The harness calls it when
+// the modelled timer fires (after stopping the real timer) or, for a stale fire, at an instant
+// after the timer was stopped although it had already expired.
+func (c *FailoverController) VerifFailoverTimerFunc() {
+	c.executeFailover("partner health check failure")
+}
+
+// VerifFailbackTimerFunc runs what the failback timer's function runs.
+func (c *FailoverController) VerifFailbackTimerFunc() {
+	c.executeFailback("partner recovered")
+}
+
+// VerifRecordFailure feeds one failed health check into the monitor (thresholds, state change
+// and handler notification are the monitor's own).
+func (m *HealthMonitor) VerifRecordFailure() {
+	_ = m.recordFailure(errors.New("verif: injected health-check failure"))
+}
+
+// VerifRecordSuccess feeds one successful health check into the monitor.
+func (m *HealthMonitor) VerifRecordSuccess() {
+	m.recordSuccess(time.Millisecond, "partner", RoleActive, 0)
+}
